@@ -546,16 +546,23 @@ int main(int argc, char **argv)
 			item_t *fl = new_item(K_BSYNC, NT, B_NONE);
 			if (fl) submit(fl);
 			n = atomic_load(&g_nitems); if (n > MAXI) n = MAXI;
+			/* pending = not FINISHED (an item that a timer or a still-running parent enqueued behind this flush may have
+			 * started already and still be inside its body) */
 			int pending = 0;
-			for (int i = 0; i < n; i++) if (atomic_load(&g_items[i].runs) == 0) pending++;
-			/* two clean rounds in a row: an item that a timer enqueued behind the previous flush (dispatch_after) has
-			 * started by then, and the second flush barrier waits for its drainer to finish it */
+			for (int i = 0; i < n; i++) if (atomic_load(&g_items[i].runs) == 0 || g_items[i].end_seq == 0) pending++;
 			if (n == before + 1 && pending == 0 && atomic_load(&g_pending_resume) == 0) { if (++clean >= 2) break; }
 			else clean = 0;
 			/* give up after 10 s: what has not run by then is reported as stranded by check_execution (dispatch_after
 			 * items are enqueued by the manager thread, which the perturbation slows down like any other) */
 			if (round > 200 && now_ms() - flush_t0 > 10000) break;
 			if (pending) usleep(300);
+		}
+		{
+			/* every item has finished its body: one more barrier waits for the width / the drain lock that the last of
+			 * them still gives back after its body (the state word is idle only then) */
+			item_t *fl = new_item(K_BSYNC, NT, B_NONE);
+			if (fl) submit(fl);
+			n = atomic_load(&g_nitems); if (n > MAXI) n = MAXI;
 		}
 		if (dispatch_group_wait(g_grp, dispatch_time(DISPATCH_TIME_NOW, 20ll * NSEC_PER_SEC)) != 0)
 			oracle_fail("C01", "dispatch_group_async items all ran but the group never emptied", 0, 0);
